@@ -59,9 +59,9 @@ func meta() core.Meta {
 	}
 	return core.Meta{
 		Engine: "c04", Property: "C04", Level: "fault_enumeration",
-		Rule:       "evaluation = one delivery: a valid item reaches a real consumer after exactly one fault of the seam: truncation at every offset (all prefixes, always complete), substitution of one byte over a structure-aware alphabet of 10 values per position, corruption of every DER length octet (10 values) resp. every 32-bit and 64-bit window of binary formats, re-encoding of a DER item with one element of its TLV tree (nested encodings included) emptied / one byte shorter / one or four bytes longer / given a leading zero / duplicated / removed and all enclosing lengths recomputed (structurally valid, unusual sizes and multiplicities), and for the flows Byzantine-peer damage before sealing, emptied sequences, lying TCP length prefixes, stalled peers; quick samples the substitution and field spaces of large items, thorough enumerates them; distinct = distinct (delivery point, item, mode, chunk); non-trivial = every case (each contains damaged deliveries)",
+		Rule:       "evaluation = one delivery: a valid item reaches a real consumer after exactly one fault of the seam: truncation at every offset (all prefixes, always complete), substitution of one byte over a structure-aware alphabet of 10 values per position, corruption of every DER length octet (10 values) resp. every 32-bit and 64-bit window of binary formats, re-encoding of a DER item with one element of its TLV tree (nested encodings included) emptied / one byte shorter / one or four bytes longer / given a leading zero / duplicated / removed and all enclosing lengths recomputed (structurally valid, unusual sizes and multiplicities), and for the flows Byzantine-peer damage before sealing, emptied sequences, lying TCP length prefixes, stalled peers; quick samples the substitution and field spaces of large items, thorough enumerates them; seeded cases (quick 64, thorough 6000 batches of 128/256 deliveries) carry two or three of these faults at once, drawn from the run seed; distinct = distinct (delivery point, item, mode, chunk); non-trivial = every case (each contains damaged deliveries)",
 		SweepQuick: q, SweepThorough: t,
-		SeededQuick: 0, SeededThorough: 0,
+		SeededQuick: 64, SeededThorough: 6000,
 		WorkloadProbes: []string{"deliveries-der", "deliveries-binary", "deliveries-text"},
 		Components:     comps,
 		Assumptions: []string{
@@ -79,8 +79,23 @@ func gen(caseID, tier string) (json.RawMessage, error) {
 	if err != nil {
 		return nil, err
 	}
+	if kind == "seed" {
+		// seeded cases: batches of deliveries carrying two or three faults each, at a point and item
+		// drawn from the seed
+		r := core.NewRng(n).Derive("c04seeded")
+		ps := points()
+		p := &ps[r.Intn(len(ps))]
+		for len(p.items) == 0 {
+			p = &ps[r.Intn(len(ps))]
+		}
+		cnt := 128
+		if tier == "thorough" {
+			cnt = 256
+		}
+		return core.MustJSON(Tape{Engine: "c04", RunSeed: n >> 1, Point: p.name, Item: r.Intn(len(p.items)), Mode: "multi", From: 0, Count: cnt}), nil
+	}
 	if kind != "sweep" {
-		return nil, fmt.Errorf("c04 enumerates; no seeded cases")
+		return nil, fmt.Errorf("c04: unknown case kind")
 	}
 	cs := enumerate(tier)
 	if int(n) >= len(cs) {
